@@ -17,6 +17,7 @@ import time
 
 from . import common
 
+KEY_ZERO_TAKE = "poulpy-cpu-ref/src/hal_defaults/scratch.rs:take_slice_aligned:zero-length-take:aligned_offset>len"
 KEY_DEALLOC = "poulpy-hal/src/lib.rs:alloc_aligned_custom_u8:dealloc-layout"
 U64 = 1 << 64
 
@@ -194,6 +195,68 @@ def run(ctx):
                 oracle_fail.append({"why": "AddressSanitizer report", "reports": rep[:5], "stderr": p.stderr[:1500]})
         else:
             ctx.log("ASan build not available: " + asan_msg[-200:])
+
+    # ---- scratch carving on the real arena: random take sequences from misaligned windows
+    if drv is not None and binp is not None:
+        rng = ctx.rng.fork()
+        tl = []
+        for k in range(600 if quick else 20000):
+            mis = rng.choice([0, 0, 8, 16, 24, 32, 40, 48, 56, rng.below(64)])
+            cnt = rng.range(1, 6)
+            seq = [rng.choice([rng.range(0, 9), rng.range(1, 200), 64 * rng.range(1, 4), 8 * rng.range(1, 30), 24, 40, 7]) for _ in range(cnt)]
+            need = sum(x + 63 for x in seq) + 64
+            ln = rng.choice([need, need, sum(seq) + mis, max(0, sum(seq) - rng.range(0, 40)), rng.range(0, need)])
+            tl.append((mis, ln, seq))
+        lines_t = [f"{k} mis={m} len={l} seq={','.join(map(str, q))}" for k, (m, l, q) in enumerate(tl)]
+        rc, tout, terr = ctx.run_lines(binp, ["takes"], lines_t)
+        rc2, mout, _ = ctx.run_lines(drv, [], [f"{k} takes mis={m} len={l} seq={','.join(map(str, q))}" for k, (m, l, q) in enumerate(tl)])
+        n_take = 0
+        for k, (mis, ln, seq) in enumerate(tl):
+            a = tout[k].split(" ", 1)[1] if k < len(tout) and " " in tout[k] else "missing"
+            b = mout[k].split(" ", 1)[1] if k < len(mout) and " " in mout[k] else "missing"
+            ctx.count_case(("takes", mis % 8 == 0, len(seq), "panic" in a, ln % 64 == 0))
+            n_take += 1
+            parts = [t for t in a.split() if ":" in t]
+            # oracle on the real pointers: every slice inside the window, 64-aligned (absolute), pairwise disjoint, canaries intact
+            spans = []
+            why = None
+            zero_take = None
+            for t in parts:
+                off, l_, rem = (int(x) for x in t.split(":"))
+                if l_ == 0 and off > ln:
+                    zero_take = f"zero-length slice at offset {off} of a {ln}-byte window"
+                    spans.append((off, l_))
+                    continue
+                if off < 0 or off + l_ > ln:
+                    why = f"slice [{off},{off + l_}) outside the window of {ln} bytes"
+                if l_ > 0 and (off + mis) % 64 != 0:
+                    why = f"slice at offset {off} of a window at misalignment {mis} is not 64-byte aligned"
+                for (o2, l2) in spans:
+                    if l_ > 0 and l2 > 0 and off < o2 + l2 and o2 < off + l_:
+                        why = f"slices [{o2},{o2 + l2}) and [{off},{off + l_}) overlap"
+                spans.append((off, l_))
+                if off + l_ + rem > ln:
+                    why = f"remainder of {rem} bytes after [{off},{off + l_}) reaches past the window"
+            if "canary=0" in a:
+                why = "bytes outside the window were modified"
+            if zero_take:
+                # zero-length take on a window shorter than its alignment offset: recorded finding
+                ctx.violation("take_slice_aligned computes ptr.add(aligned_offset) past the window for a zero-length take",
+                              {"key": KEY_ZERO_TAKE, "takes": lines_t[k], "implementation": a, "why": zero_take}, True, key=KEY_ZERO_TAKE)
+            if why:
+                oracle_fail.append({"takes": lines_t[k], "implementation": a, "why": why})
+            if a.replace(" canary=1", "").replace(" canary=0", "") != b:
+                disagree.append({"takes": lines_t[k], "implementation": a, "model": b})
+        ctx.cov["take_sequences"] = n_take
+        # ---- HAL operations from garbage-filled buffers with guard tails (the C07/C11 programs), as a footprint validator
+        from . import halgen, halrun
+        hcases = [halgen.program(rng) for _ in range(800 if quick else 20000)]
+        bad = halrun.run_cases(ctx, binp, drv, hcases)
+        for (k, d, a, b) in bad[:5]:
+            line, meta = hcases[k]
+            found, w = halrun.classify(ctx, binp, line, a, b)
+            w["difference"] = d
+            (oracle_fail if found else disagree).append({"hal": w})
 
     # ---- documented UB: Vec<u8> freed with align 1 over a 64-aligned allocation
     try:
